@@ -5,11 +5,15 @@ import json, os, subprocess, sys, glob, re
 PROPS = ["C%02d" % i for i in range(1, 20)]
 def sh(cmd, **kw):
     return subprocess.run(cmd, shell=True, text=True, stdout=subprocess.PIPE, stderr=subprocess.STDOUT, **kw)
+WT = os.environ.get("MATRIX_WT")  # optional scratch worktree to patch instead of /repo (development runs)
+TARGET = WT or "/repo"
 def run_all():
     procs = {}
+    env = dict(os.environ)
+    env["ORX_REPO"] = TARGET
     for p in PROPS:
         procs[p] = subprocess.Popen(["./check", p, "--tier", "quick"], cwd="/verif", text=True, stdout=subprocess.PIPE,
-                                    stderr=subprocess.STDOUT)
+                                    stderr=subprocess.STDOUT, env=env)
     res = {}
     for p, pr in procs.items():
         out = pr.communicate()[0]
@@ -30,9 +34,14 @@ def main():
     mp = "/verif/seeded/matrix.json"
     if os.path.exists(mp):
         out = json.load(open(mp))
-    assert sh("git -C /repo status --porcelain -- src").stdout.strip() == "", "repo dirty"
+    if WT:
+        if not os.path.isdir(WT):
+            sh("git -C /repo worktree add -q --detach %s HEAD" % WT)
+        sh("git -C %s checkout -q --detach %s && git -C %s reset -q --hard" % (
+            WT, sh("git -C /repo rev-parse HEAD").stdout.strip(), WT))
+    assert sh("git -C %s status --porcelain -- src" % TARGET).stdout.strip() == "", "repo dirty"
     for sid, pf in items:
-        r = sh("git -C /repo apply %s" % pf)
+        r = sh("git -C %s apply %s" % (TARGET, pf))
         if r.returncode != 0:
             out[sid] = {"apply": "fail"}
             print(sid, "cannot apply")
@@ -40,7 +49,7 @@ def main():
         try:
             res = run_all()
         finally:
-            sh("git -C /repo checkout -- src")
+            sh("git -C %s checkout -- src && git -C %s clean -fdq -- src" % (TARGET, TARGET))
         flagged = [p for p in PROPS if res[p]["rc"] == 1]
         infra = [p for p in PROPS if res[p]["rc"] not in (0, 1)]
         own = sid.split("-")[0].replace("R2_", "")
